@@ -20,6 +20,9 @@ CONSTANTS
   LitsR = FALSE
   CarrierKinds = {}
   HistBound = 2
+  SameSchemes = {}
+  SameUsers = {}
+  SamePorts = {}
   PoolClasses = {"pub4", "p10"}
   Emit = TRUE
 INVARIANTS Safe RedirectsChecked EmitCase
